@@ -68,7 +68,7 @@ type annotator struct {
 
 // c13AllBenign is the robustness suite of C13.
 func c13AllBenign() []core.Mutant {
-	return append(append(append([]core.Mutant(nil), c13Benign...), c13Benign2...), append(append(append([]core.Mutant(nil), c13Benign3...), c13Benign4...), append(append(append([]core.Mutant(nil), c13Benign5...), c13Benign5b...), append(append(append([]core.Mutant(nil), c13Benign5c...), c13Benign5d...), c13Benign5e...)...)...)...)
+	return append(append(c13Benign8[:len(c13Benign8):len(c13Benign8)], c13Benign8b...), append(append(append([]core.Mutant(nil), c13Benign...), c13Benign2...), append(append(append([]core.Mutant(nil), c13Benign3...), c13Benign4...), append(append(append([]core.Mutant(nil), c13Benign5...), c13Benign5b...), append(append(append([]core.Mutant(nil), c13Benign5c...), c13Benign5d...), c13Benign5e...)...)...)...)...)
 }
 
 // c13Benign3: the creates appended by a helper that receives the address of the action list.
